@@ -26,11 +26,14 @@ POOL = SHARD.get("pooling", False)
 PREFIX = SHARD.get("prefix", "").encode()
 OPS = ("get", "gets", "set", "add", "delete", "incr", "touch", "get_many", "gets_many", "set_many", "delete_many", "mixed")
 OP = SHARD.get("op", "get_many")
-FMAX = 4 if OP == "set_many" else 1
+FMAX = 3 if OP == "set_many" else 1
+A3FIX = SHARD.get("a3")
+FMFIX = SHARD.get("fm")
+SINGLE = OP in ("get", "gets", "set", "add", "delete", "incr", "touch")   # per-key operations: every key is checked on its own
 
 SERVERS = [("10.0.0.1", 11211), "/tmp/mc2.sock", ("host3", 11212), ("10.0.0.4", 11211)]
 # corpus: the str and the bytes spelling of one key, another key, and a (server_key, key) pair
-CORPUS = ["k1", b"k1", "k2", ("sk", "k3"), ("k2", b"k4")]
+CORPUS = ["k1", b"k1", "k2", ("sk", "k3"), ("k2", b"k4"), ("sk", "k2")]   # the last pair: inner key "k2" routed by "sk"
 ROUTING = ["k1", b"k1", "k2", "sk"]          # routing keys -> assignment variables a0..a3
 
 
@@ -158,17 +161,26 @@ def _server_name(i):
 def h_route(a0: int, a1: int, a2: int, a3: int, subset: int, failmask: int) -> int:
     """
     pre: 0 <= a0 < NS and 0 <= a1 < NS and 0 <= a2 < NS and 0 <= a3 < NS
-    pre: 0 <= subset < 32
+    pre: 0 <= subset < 64
     pre: 0 <= failmask < FMAX
     post: _ != 0
     """
+    if SINGLE and subset != 63:
+        return skip("single-key-operations-always-check-the-whole-corpus")
+    if A3FIX is not None and a3 != A3FIX:
+        return skip("assignment-of-the-last-routing-key-is-a-shard-parameter")
+    if FMFIX is not None and failmask != FMFIX:
+        return skip("failure-mask-is-a-shard-parameter")
     assign = [concretize(a, 0, NS - 1) for a in (a0, a1, a2, a3)]
-    keys = [CORPUS[i] for i in range(5) if bit(subset, i)]
+    keys = [CORPUS[i] for i in range(6) if bit(subset, i)]
     fm = concretize(failmask, 0, 3)
     if fm and OP != "set_many":
         return skip("failure-mask-only-matters-for-set_many")
     with notrace():
-        return _route_concrete(assign, keys, fm)
+        try:
+            return _route_concrete(assign, keys, fm)
+        except Exception as e:
+            return viol(OP, "keys", keys, "assignment", assign, ": an internal error escaped:", type(e).__name__, e)
 
 
 def _route_concrete(assign, keys, fm):
@@ -224,26 +236,34 @@ def _route_concrete(assign, keys, fm):
     W.log = []
     if op in ("get_many", "gets_many"):
         res = getattr(c, op)(keys)
-        want = {}
+        # the same inner key may be requested twice with different routing ("k2" and ("sk", "k2")): the merged dict can hold
+        # only one answer per inner key, so any of the per-occurrence answers is acceptable, and a key must be present as soon
+        # as one of its occurrences finds it
+        allowed = {}
         for key in keys:
             v = c.get(key) if op == "get_many" else c.gets(key)
-            if (v is not None) if op == "get_many" else (v != (None, None)):
-                want[_wk(key)] = v
+            found = (v is not None) if op == "get_many" else (v != (None, None))
+            allowed.setdefault(_wk(key), [])
+            if found:
+                allowed[_wk(key)].append(v)
         multi_log = [e for e in W.log if e[1] == op]
         delivered = []
-        for s, m, ks in multi_log:
+        for s_, m_, ks in multi_log:
             for k in ks:
-                delivered.append((srv(s), k))
-        for key in keys:
-            n = sum(1 for (s, k) in delivered if k is _wk(key) or (type(k) is type(_wk(key)) and k == _wk(key) and s == home(key)))
-            if (home(key), _wk(key)) not in [(s, k) for (s, k) in delivered if type(k) is type(_wk(key))]:
-                return viol(op, keys, ": key", repr(key), "was not sent to its home", home(key), "; delivered:", delivered)
-        if len(delivered) != len(keys):
-            return viol(op, keys, "delivered", len(delivered), "keys for", len(keys), "requested:", delivered)
-        if len(set(s for s, _, _ in multi_log)) != len(multi_log):
+                delivered.append((srv(s_), type(k).__name__, k))
+        required = [(home(key), type(_wk(key)).__name__, _wk(key)) for key in keys]    # one delivery per requested occurrence
+        if sorted(map(repr, delivered)) != sorted(map(repr, required)):
+            return viol(op, keys, "delivered", delivered, "expected exactly", required)
+        if len(set(s_ for s_, _, _ in multi_log)) != len(multi_log):
             return viol(op, "contacted a server more than once:", multi_log)
-        if res != want:
-            return viol(op, keys, "returned", res, "but the per-key reads give", want)
+        for k, vals in allowed.items():
+            if vals and (k not in res or res[k] not in vals):
+                return viol(op, keys, "returned", res, "but the per-key reads give", allowed)
+            if not vals and k in res:
+                return viol(op, keys, "returned", res, "although no server holds", k)
+        for k in res:
+            if k not in allowed:
+                return viol(op, keys, "returned an unrequested key", k)
         return ok("multi-read")
     if op == "set_many":
         fail = [k for i, k in enumerate(_wk(x) for x in keys) if fm & (1 << (i % 2))]
@@ -255,13 +275,20 @@ def _route_concrete(assign, keys, fm):
             if m == "set_many":
                 for k in ks:
                     delivered.append((srv(s), k))
-        if len(delivered) != len(keys):
-            return viol("set_many", keys, "delivered", delivered)
+        required = []
         for key in keys:
-            if (home(key), _wk(key)) not in [(s, k) for (s, k) in delivered if type(k) is type(_wk(key))]:
-                return viol("set_many: key", repr(key), "not sent to its home", home(key), "; delivered:", delivered)
-        if sorted(map(repr, failed)) != sorted(map(repr, fail)):
-            return viol("set_many failed-key list", failed, "expected the union of the per-server failures", fail)
+            item = (home(key), type(_wk(key)).__name__, _wk(key))
+            if item not in required:
+                required.append(item)
+        got_pairs = [(s_, type(k).__name__, k) for (s_, k) in delivered]
+        for item in required:
+            if item not in got_pairs:
+                return viol("set_many: key", item[2], "not sent to its home", item[0], "; delivered:", delivered)
+        if len(got_pairs) != len(required):
+            return viol("set_many", keys, "delivered", delivered, "expected exactly", required)
+        exp_failed = [item[2] for item in required if item[2] in fail]      # one entry per (server, key) that failed
+        if sorted(map(repr, failed)) != sorted(map(repr, exp_failed)):
+            return viol("set_many failed-key list", failed, "expected the union of the per-server failures", exp_failed)
         W.fail_keys = ()
         for i, key in enumerate(keys):
             if _wk(key) in fail:
@@ -315,19 +342,28 @@ def shards(tier):
     T = 1500 if thorough else 400
     for ns in ((1, 2, 3, 4) if thorough else (2, 3)):
         for op in OPS:
-            if not thorough and ns == 2 and op in ("gets", "add", "touch", "incr"):
+            if not thorough and (ns == 2 and op not in ("get_many", "set_many") or op in ("gets", "add", "touch", "delete", "gets_many")):
                 continue
-            out.append(dict(fn="h_route", timeout=T, shard=dict(ns=ns, op=op)))
-    for op in ("get_many", "set_many", "get", "mixed"):
-        out.append(dict(fn="h_route", timeout=T, shard=dict(ns=3, op=op, pooling=True)))
-        out.append(dict(fn="h_route", timeout=T, shard=dict(ns=3, op=op, prefix="pf:")))
+            if op in ("get", "set", "incr", "gets", "add", "touch", "delete"):
+                out.append(dict(fn="h_route", timeout=T, shard=dict(ns=ns, op=op)))
+                continue
+            for a3 in range(ns):
+                for fm in ((0, 1, 2) if op == "set_many" else (None,)):
+                    sh = dict(ns=ns, op=op, a3=a3)
+                    if fm is not None:
+                        sh["fm"] = fm
+                    out.append(dict(fn="h_route", timeout=T, shard=sh))
+    for op in (("get_many", "set_many", "get", "mixed") if thorough else ("get_many",)):
+        out.append(dict(fn="h_route", timeout=T, shard=dict(ns=3 if thorough else 2, op=op, pooling=True)))
+        out.append(dict(fn="h_route", timeout=T, shard=dict(ns=3 if thorough else 2, op=op, prefix="pf:")))
     return out
 
 
 BOUNDS = {
-    "quick": "2 and 3 servers (TCP and UNIX names), corpus of 5 keys (the str and bytes spelling of one key, a plain key, two "
-             "(server_key, key) pairs), every assignment of the 4 routing keys to servers (symbolic), every subset of the "
-             "corpus (symbolic) x 12 operations (single-key get/gets/set/add/delete/incr/touch, get_many, gets_many, "
+    "quick": "3 servers (TCP and UNIX names; 2 servers for get_many/set_many), corpus of 6 keys (the str and bytes spelling of "
+             "one key, a plain key, three (server_key, key) pairs, one of which repeats the plain key's name under another "
+             "server key), every assignment of the 4 routing keys to servers (symbolic), every subset of the corpus "
+             "(symbolic) x 8 operations (thorough 12) (single-key get/gets/set/add/delete/incr/touch, get_many, gets_many, "
              "set_many with symbolic per-server failures, delete_many, written-by-set_many-found-by-others), pooling and "
              "prefix variants",
     "thorough": "1..4 servers",
